@@ -218,7 +218,8 @@ class Parser:
                 if t.type == "UNQUOTED_STRING":
                     # Unquoted strings after SYMBOL can only be values, not attributes
                     if (
-                        ip.parser_state.value_stack[-1] == "SYMBOL"
+                        getattr(ip.parser_state.value_stack[-1], "type", None)
+                        == "SYMBOL"
                         and t.value.upper() not in SYMBOL_ATTRIBUTES
                     ):
                         t.type = "UNQUOTED_STRING_VALUE"
